@@ -144,6 +144,7 @@ type Engine struct {
 	runtimeErrT types.Type
 	anyOrder    bool
 	clockPinned bool
+	timers      []*ChanObj // every timer channel created on this path (idle clock advance)
 	fmtLenient  bool
 	usedClock   bool
 	lastFn      string
@@ -728,6 +729,7 @@ func (e *Engine) RunPath(entry *ssa.Function, item WorkItem) (res *PathResult) {
 	e.ghost = map[string]Value{}
 	e.anyOrder = false
 	e.clockPinned = false
+	e.timers = nil
 	e.usedClock = false
 	e.randInts = 0
 	e.syncMaps = nil
